@@ -28,6 +28,7 @@ CONSTANTS DEV_OmitEmptyAssertingLists, DEV_CaseFoldKeys
 \*   "orderGuard"      unlisted properties are written only when PropertyOrder is shorter than properties
 \*   "sortEncoded"     unlisted properties are sorted by their RENDERED member text, not by name
 \*   "falsyDrops"      a schema with "not": {} is written as false whatever else it carries
+\*   "extraClashLate"  an Extra key named like a keyword is refused only when the schema also has real keywords
 CONSTANT MUT_Codec
 
 \* ------------------------------------------------------------ C19
@@ -77,11 +78,27 @@ Emitted(s) ==
        ELSE IF k \in {"uniqueItems", "deprecated", "readOnly", "writeOnly"} THEN s[k]
        ELSE IF k = "propertyOrder" THEN FALSE            \* json:"-": only steers the order of "properties"
        ELSE TRUE}
+\* Extra holds UNKNOWN keywords.  A key of Extra that is the JSON name of a real keyword cannot be written: the
+\* document would carry it as that keyword and read back with another meaning.  Marshal refuses such a value
+\* (at any depth), whatever else the schema holds.
+ClashKeys == {"minimum", "not", "type"}
+ExtraClash(s) == "extra" \in DOMAIN s /\ DOMAIN s.extra \cap ClashKeys # {}
+ExtraAsKW(k, v) == CASE k = "minimum" -> v.n [] k = "not" -> [bool |-> v.b] [] k = "type" -> v.s
+RECURSIVE MarErr(_)
+MarErr(s) ==
+  IF "bool" \in DOMAIN s THEN FALSE
+  ELSE \/ ExtraClash(s) /\ (MUT_Codec = "extraClashLate" => Emitted(s) \ {"extra"} # {})
+       \/ \E k \in Emitted(s) : \/ k \in SingleKW /\ MarErr(s[k])
+                                \/ k \in SeqKW /\ \E i \in DOMAIN s[k] : MarErr(s[k][i])
+                                \/ k \in MapKW /\ \E n \in DOMAIN s[k] : MarErr(s[k][n])
 RECURSIVE Mar(_)
 \* the document Marshal writes for schema value s (boolean folding is a rendering matter)
 Mar(s) ==
   IF "bool" \in DOMAIN s THEN s
   ELSE IF MUT_Codec = "falsyDrops" /\ "not" \in DOMAIN s /\ s["not"] = [bool |-> TRUE] THEN [bool |-> FALSE]
+  \* (only reached under "extraClashLate": the clashing keys are written verbatim - and are keywords to every reader)
+  ELSE IF ExtraClash(s) /\ Emitted(s) = {"extra"}
+         THEN [k \in DOMAIN s.extra \cap ClashKeys |-> ExtraAsKW(k, s.extra[k])]
   ELSE [k \in Emitted(s) |->
           IF k \in SingleKW THEN Mar(s[k])
           ELSE IF k \in SeqKW THEN [i \in DOMAIN s[k] |-> Mar(s[k][i])]
